@@ -14,6 +14,11 @@ contract on an arbitrary heap whose parent/child links are consistent (same styl
       label'(tree) == label(tree) + "+" + label(only child); the child's children become tree's children in order,
       each pointing to tree; if the child is a token its num/word/lemma are pulled up; no other node changes.
 
+  binarization step (body of `while len(remaining) > 2` in _binarize_tree)
+      one fresh head-marked node labelled '@' (bare) or '@' + parent label without co-index, and the outermost
+      remaining child on the side away from the head, are appended to `last_tree`; the direction turns right at the
+      head child; the new node becomes `last_tree`; nothing else changes.
+
 The composition over iterations and over the recursion is decided by the bounded stand-in (bounded/c14.py) only.
 """
 import ast
@@ -36,6 +41,8 @@ ASSUMPTIONS = ["block precondition: parent/child links consistent, the heap is c
 
 
 def build(reg):
+    from contracts import c20
+    c20.build(reg)                 # parse_label / format_label (proved under C20) are called by the binarization step
     add_common(reg)
 
 
@@ -300,4 +307,144 @@ def lemma_collapse_step(reg, repo):
 
 lemma_collapse_step.target = "trees.transform._collapse_unary_chains"
 
-LEMMAS = {"uncollapse_step": lemma_uncollapse_step, "collapse_step": lemma_collapse_step}
+# ------------------------------------------------------------------------------------------------------------------
+# binarization step
+# ------------------------------------------------------------------------------------------------------------------
+def _children_point_back(H, tag):
+    n, k = z3.Int(fresh_name(tag + "n")), z3.Int(fresh_name(tag + "k"))
+    return qforall([n, k], z3.Implies(z3.And(z3.Select(H.f["alive"], n), 0 <= k, k < H.nchild_t(n)),
+                                      z3.And(H.child_t(n, k) != 0, H.parent_t(H.child_t(n, k)) == n)),
+                   [H.child_t(n, k)])
+
+
+def lemma_binarize_step(reg, repo):
+    """body of `while len(remaining) > 2` in _binarize_tree: one fresh @-node (head-marked, labelled '@' or '@' + the
+    parent label without its co-index) and the outermost remaining child on the side opposite to the head are
+    appended to `last_tree`; the @-node becomes `last_tree`; `remaining` loses exactly that child."""
+    import ast as _ast
+    from pyvc.sym import fresh, TList, tostr
+    from contracts.c20 import HM as _HM
+    qual = "trees.transform._binarize_tree"
+    info = repo.fns.get(qual)
+    if info is None:
+        raise Unsupported("function %s no longer exists" % qual)
+    loop = _only_while(info)
+    c = Contract(target=qual, prop="C14", args={})
+    ex = Exec(repo, reg, info, c, prefix="C14.binarize_step")
+    H = Heap.fresh("B")
+    st = State(heap=H)
+    for t in H.typing():
+        st.assume(t)
+    assume = []
+    env = dict(tree=VRef(z3.Int(fresh_name("b_tree"))), last_tree=VRef(z3.Int(fresh_name("b_last"))),
+               child=VRef(z3.Int(fresh_name("b_child"))), binarization_tree=VRef(z3.Int(fresh_name("b_bt"))),
+               label=VStr(z3.String(fresh_name("b_label"))), direction=VStr(z3.String(fresh_name("b_dir"))),
+               bare_bin_labels=VBool(z3.Bool(fresh_name("b_bare"))),
+               remaining=fresh(TList(REF), "b_rem", assume=assume))
+    for t in assume:
+        st.assume(t)
+    st.env.update(env)
+    ex.entry_heap = H.copy()
+    H0 = H.copy()
+    alive0 = lambda r: z3.Select(H0.f["alive"], r)
+    rem0, last0, dir0 = env["remaining"], env["last_tree"], env["direction"]
+    i = z3.Int(fresh_name("bi"))
+    st.assume(z3.And(last0.t != 0, alive0(last0.t)))
+    st.assume(_closed(H0, "b"))
+    st.assume(_children_point_back(H0, "b"))
+    st.assume(qforall([i], z3.Implies(z3.And(0 <= i, i < rem0.n), z3.And(
+        rem0.get(i).t != 0, alive0(rem0.get(i).t), z3.Select(H0.f["has_head"], rem0.get(i).t))), [rem0.get(i).t]))
+    st.assume(z3.Or(dir0.t == z3.StringVal("left"), dir0.t == z3.StringVal("right")))
+    # the remaining children were taken out of the child list of `tree` (tree.children = []): they are in no list
+    nn_, kk_ = z3.Int(fresh_name("bn")), z3.Int(fresh_name("bk"))
+    st.assume(qforall([nn_, kk_, i], z3.Implies(
+        z3.And(alive0(nn_), 0 <= kk_, kk_ < H0.nchild_t(nn_), 0 <= i, i < rem0.n),
+        H0.child_t(nn_, kk_) != rem0.get(i).t), [[H0.child_t(nn_, kk_), rem0.get(i).t]]))
+    ex.obligations = []
+    cond = ex.ev(loop.test, st)
+    st.assume(tobool(cond))
+    outs = ex.exec_block(loop.body, st)
+    outs = ex._with_raises(st, outs)
+    vcs = []
+    S_ = z3.StringVal
+    n_normal = 0
+    for oi, o in enumerate(outs):
+        if o.kind != "normal":
+            # the only exceptional exits allowed are those of parse_label on a label it rejects
+            continue
+        n_normal += 1
+        H1 = o.st.heap
+        e1 = o.st.env
+        b = e1["binarization_tree"].t
+        par1, nch1, ch1 = H1.parent_t, H1.nchild_t, H1.child_t
+        n, k = z3.Int(fresh_name("qn")), z3.Int(fresh_name("qk"))
+        head_first = z3.Select(H0.f["val_head"], rem0.get(0).t)
+        dir1 = z3.If(head_first, S_("right"), dir0.t)
+        left = dir1 == S_("left")
+        exp_child = z3.If(left, rem0.get(0).t, rem0.get(rem0.n - 1).t)
+        rem1 = e1["remaining"]
+        d1 = e1["direction"]
+        d1t = d1.t if hasattr(d1, "t") else S_(d1)
+        n0 = H0.nchild_t(last0.t)
+        # the parent label without its co-index, rebuilt from the (named) result of parse_label
+        rec = ex.ev(_ast.parse("trees.parse_label(label)", mode="eval").body, o.st.fork())
+        f = rec.fields
+        lab, gf, gap, sep = [tostr(f[x]) for x in ("label", "gf", "gapindex", "gf_separator")]
+        hm = tostr(f["headmarker"])
+        no_co = z3.Concat(z3.If(lab != S_("EMPTY"), lab, S_("")),
+                          z3.If(z3.And(gf != S_("--"), z3.Length(gf) > 0), z3.Concat(sep, gf), S_("")),
+                          z3.If(z3.Length(gap) > 0, z3.Concat(S_("="), gap), S_("")),
+                          z3.If(z3.Length(hm) > 0, S_(_HM), S_("")))
+        goals = {
+            "new_node_is_fresh": z3.And(b != 0, z3.Not(alive0(b)), z3.Select(H1.f["alive"], b), nch1(b) == 0),
+            "new_node_is_head_marked_at_node": z3.And(
+                z3.Select(H1.f["has_head"], b), z3.Select(H1.f["val_head"], b),
+                z3.Select(H1.f["has_label"], b), z3.Not(z3.Select(H1.f["none_label"], b)),
+                z3.Select(H1.f["val_label"], b) == z3.If(tobool(env["bare_bin_labels"]), S_("@"),
+                                                        z3.Concat(S_("@"), no_co))),
+            "direction_turns_right_at_the_head": d1t == dir1,
+            "outermost_child_opposite_the_head_is_taken": z3.And(
+                e1["child"].t == exp_child, rem1.n == rem0.n - 1,
+                z3.ForAll([k], z3.Implies(z3.And(0 <= k, k < rem1.n),
+                                          rem1.get(k).t == z3.If(left, rem0.get(k + 1).t, rem0.get(k).t)))),
+            "last_tree_gains_the_node_and_the_child": z3.And(
+                nch1(last0.t) == n0 + 2, ch1(last0.t, n0) == b, ch1(last0.t, n0 + 1) == exp_child,
+                par1(b) == last0.t, par1(exp_child) == last0.t,
+                z3.ForAll([k], z3.Implies(z3.And(0 <= k, k < n0), ch1(last0.t, k) == H0.child_t(last0.t, k)))),
+            "new_node_becomes_last_tree": e1["last_tree"].t == b,
+            "nothing_else_changes": z3.ForAll([n], z3.Implies(alive0(n), z3.And(
+                _data_unchanged(H0, H1, n),
+                z3.Implies(n != exp_child, par1(n) == H0.parent_t(n)),
+                z3.Implies(n != last0.t, z3.And(nch1(n) == H0.nchild_t(n),
+                                                z3.Select(H1.f["child"], n) == z3.Select(H0.f["child"], n)))))),
+            "children_point_back": z3.ForAll([n, k], z3.Implies(
+                z3.And(z3.Select(H1.f["alive"], n), 0 <= k, k < nch1(n)),
+                z3.And(ch1(n, k) != 0, par1(ch1(n, k)) == n))),
+        }
+        for gname, g in goals.items():
+            vcs.append(("path%d.%s" % (oi, gname), list(o.st.pc), g))
+    for o in outs:
+        if o.kind == "raise":
+            # an exceptional exit must come from parse_label (rejected label), not from the step itself
+            vcs.append(("no_exception_from_the_step.L%s" % (o.val,), list(o.st.pc),
+                        z3.BoolVal(str(o.exc) in ("ValueError",) and _line_calls(info, o.val, "parse_label"))))
+    for ob in ex.obligations:
+        vcs.append(("safe.%s" % ob.name.split(".", 2)[-1], list(ob.pc), ob.goal))
+    if n_normal < 2:
+        raise Unsupported("expected the step to distinguish the two directions")
+    return vcs
+
+
+def _line_calls(info, line, name):
+    """does source line `line` (relative numbering of pyvc) of the function call `name`?"""
+    try:
+        src = info.src.splitlines()[int(line) - 1]
+    except Exception:
+        return False
+    return name in src
+
+
+lemma_binarize_step.target = "trees.transform._binarize_tree"
+
+LEMMAS = {"uncollapse_step": lemma_uncollapse_step, "collapse_step": lemma_collapse_step,
+          "binarize_step": lemma_binarize_step}
